@@ -222,8 +222,10 @@ class LLOneParser:
         stack = ["$", parse_tree]
         while stack:
             current = stack.pop()
-            if current == "$" and word[-1] == "$":
-                return parse_tree
+            if current == "$":
+                if word[-1] == "$":
+                    return parse_tree
+                raise NotParsableException
             if current.value == word[-1]:
                 word.pop()
             else:
